@@ -97,7 +97,7 @@ type c03Witness struct {
 	txns []TxnJ
 }
 
-// c03Witnesses: minimal histories for the open known findings D15 and D16.
+// c03Witnesses: minimal histories for the open known finding D15 and the repaired D16.
 func c03Witnesses() []c03Witness {
 	t := TableSpec{Name: "T0", IsRoot: true, Cols: []ColSpec{
 		{Name: "name", Type: ColType{Kind: "atom", Key: "string", Min: 1, Max: 1}},
@@ -186,9 +186,7 @@ func c03History(r *Run, h int, ts TxnSchema, next func(sh *shadow) *TxnJ) {
 				if o.Op == "select" && len(o.Columns) > 0 {
 					known = "select-ignores-columns"
 				}
-				if o.Op == "wait" && known == "" {
-					known = "wait-accepted-rfc-rejects"
-				}
+
 			}
 			if sp.Rejected {
 				r.Violation("rfc", csT, "accepted", "rejected by the reference interpreter", true, fmt.Sprintf("transaction %d: the database accepted a transaction the RFC reference rejects", ti), known)
@@ -217,9 +215,6 @@ func c03History(r *Run, h int, ts TxnSchema, next func(sh *shadow) *TxnJ) {
 				}
 				sort.Strings(rows)
 				sr = append(sr, fmt.Sprintf("count=%d uuid=%s rows=%s", res.Count, res.UUID, strings.Join(rows, "|")))
-			}
-			if known == "wait-accepted-rfc-rejects" {
-				known = "" // that finding only covers the accept/reject decision of a wait
 			}
 			if a, b := strings.Join(ir, " ; "), strings.Join(sr, " ; "); a != b {
 				r.Violation("rfc", csT, a, b, true, fmt.Sprintf("transaction %d: operation results differ from RFC 7047 semantics", ti), known)
